@@ -962,6 +962,33 @@ func run(sel int, in []int64) []int64 {
 
 // ---------------------------------------------------------------- Laws
 
+const sigClaimName = "C09-update-claimname-under-inline-claim"
+
+// claimNameSig: the finding's mechanism is present in an ADMITTED update iff some volume that has
+// an inline volumeClaim before and after changes its volumeClaimName otherwise than by the
+// controller's fill (empty -> a name ValidatePersistentVolumeName accepts)
+func claimNameSig(old, new mJob, admitted bool) string {
+	if !admitted || len(old.Vols) != len(new.Vols) {
+		return ""
+	}
+	for i := range old.Vols {
+		o, n := old.Vols[i], new.Vols[i]
+		if o.Claim == nil || n.Claim == nil || o.CName == n.CName {
+			continue
+		}
+		validFill := o.CName == 0
+		for _, b := range badPV {
+			if n.CName == b {
+				validFill = false
+			}
+		}
+		if !validFill {
+			return sigClaimName
+		}
+	}
+	return ""
+}
+
 // prefill: the request with only the task names and the queue filled in
 func prefill(j mJob) mJob {
 	p := j
@@ -1031,6 +1058,14 @@ func laws(sel int, in, got []int64, law func(lsel int, lin []int64, sig string))
 			l := encJob(nil, cur, false)
 			l = encJob(l, n, false)
 			law(104, append(l, vh.B(ok)), "")
+			// law 107: the claim name of a volume with an inline claim may only be filled in (empty ->
+			// valid name).  Known finding: the webhook admits any change of it.  The sig is attached only
+			// when THIS request shows that mechanism; everything else an update must not change is law
+			// 104's business and is never signed.
+			l = encOracles(nil)
+			l = encJob(l, cur, false)
+			l = encJob(l, n, false)
+			law(107, append(l, vh.B(ok)), claimNameSig(cur, n, ok))
 			if ok {
 				cur = n
 				if admitted {
@@ -1938,7 +1973,9 @@ func genUpdate(r *vh.Rng, cur mJob) (mJob, string) {
 	kind := vh.Pick(r, []string{"replicas", "replicas", "replicas", "replicas-bad", "job-minavail", "job-minavail-bad", "prio", "prio",
 		"identity", "task-name", "template", "policies", "queue", "deps", "volume-mount", "plugin", "maxretry", "sched", "rest", "nt",
 		"add-task", "remove-task", "claimname-fill", "claimname-change", "plugins-empty", "task-maxretry", "partition", "combo", "combo",
-		"policy-timeout", "policy-event-to-events", "iteration", "claim-spec", "plugin-args", "task-swap", "task-swap"})
+		"policy-timeout", "policy-event-to-events", "iteration", "claim-spec", "plugin-args", "task-swap", "task-swap",
+		"claimname-valid-fill", "claimname-invalid-under-claim", "claimname-repoint-under-claim", "claimname-clear-under-claim",
+		"replicas-undefault", "int32-boundary", "int32-boundary"})
 	switch kind {
 	case "replicas", "combo":
 		if t.Part != nil {
@@ -2079,9 +2116,78 @@ func genUpdate(r *vh.Rng, cur mJob) (mJob, string) {
 		// any subset of the inline volumes, wherever they sit among named ones
 		for _, i := range perm(r, len(n.Vols)) {
 			if n.Vols[i].Claim != nil && r.Chance(2, 3) {
-				n.Vols[i].CName = int64(vh.Pick(r, []int{0, 1, 2, 3}))
+				n.Vols[i].CName = int64(vh.Pick(r, []int{0, 1, 2, 3, 10}))
 			}
 		}
+	case "claimname-valid-fill", "claimname-invalid-under-claim", "claimname-repoint-under-claim", "claimname-clear-under-claim":
+		// one volume with an inline claim: the controller's fill (empty -> valid name), a name the
+		// validator rejects, another name over a filled one, the name removed
+		hit := false
+		for _, i := range perm(r, len(n.Vols)) {
+			v := &n.Vols[i]
+			if v.Claim == nil || hit {
+				continue
+			}
+			switch kind {
+			case "claimname-valid-fill":
+				if v.CName == 0 {
+					v.CName, hit = int64(r.Range(1, 3)), true
+				}
+			case "claimname-invalid-under-claim":
+				v.CName, hit = 10, true
+			case "claimname-repoint-under-claim":
+				if v.CName != 0 {
+					v.CName, hit = v.CName%3+1, true
+				}
+			default:
+				if v.CName != 0 {
+					v.CName, hit = 0, true
+				}
+			}
+		}
+		if !hit {
+			n.Prio = int64(r.Intn(3))
+		}
+	case "replicas-undefault":
+		// legal replicas with the task's minAvailable left out: admitted, and nothing defaults it again
+		if t.Part == nil {
+			t.Replicas = int64(r.Range(0, 9))
+		}
+		t.MinAvail = nil
+		var tot int64
+		for _, x := range n.Tasks {
+			tot += x.Replicas
+		}
+		if n.MinAvail > tot {
+			n.MinAvail = int64(r.Range(0, int(tot)))
+		}
+	case "int32-boundary":
+		// validateJobUpdate keeps its own int32 running total: replica counts at the int32 edge, job
+		// minAvailable around the wrapped total (all values representable)
+		const max32 = int64(2147483647)
+		var tot int64
+		for i := range n.Tasks {
+			x := &n.Tasks[i]
+			if x.Part != nil {
+				tot += x.Replicas
+				continue
+			}
+			x.Replicas = vh.Pick(r, []int64{1 << 30, max32, max32 - 1, 1<<30 - 1, 2, 1, 0})
+			x.MinAvail = vh.Pick(r, []*int64{nil, p64(x.Replicas), p64(x.Replicas - 1), p64(0), p64(max32)})
+			tot += x.Replicas
+		}
+		wt := w32(tot)
+		cands := []int64{0, 1, max32, wt}
+		if wt < max32 {
+			cands = append(cands, wt+1)
+		}
+		if wt > -2147483648 {
+			cands = append(cands, wt-1)
+		}
+		if tot <= max32 {
+			cands = append(cands, tot)
+		}
+		n.MinAvail = vh.Pick(r, cands)
 	case "claimname-change":
 		hit := false
 		for _, i := range perm(r, len(n.Vols)) {
@@ -2322,7 +2428,7 @@ func gen(rng *vh.Rng, n int, emit func(id string, sel int, in []int64, kind stri
 			// a stored object that CREATE would refuse today: UPDATE re-checks the numbers and
 			// the topology conflict on its own
 			d := vh.Pick(ru, []string{"job-nt-conflict", "task-minavail-gt-replicas", "partition-nt-conflict", "job-minavail-gt-total",
-				"negative-replicas", "partition-replicas"})
+				"negative-replicas", "partition-replicas", "int32-boundary", "int32-boundary", "replica-overflow", "int32-partition-product"})
 			if inject(ru, &j, d) {
 				hkind = "update/history-invalid-stored"
 			}
@@ -2352,7 +2458,8 @@ func gen(rng *vh.Rng, n int, emit func(id string, sel int, in []int64, kind stri
 			kinds = append(kinds, kind)
 			// follow the likely-admitted ones so that histories make progress
 			switch strings.TrimSuffix(kind, "+terminating") {
-			case "replicas", "combo", "job-minavail", "prio", "identity", "claimname-fill", "plugins-empty":
+			case "replicas", "combo", "job-minavail", "prio", "identity", "claimname-fill", "plugins-empty", "claimname-valid-fill",
+				"claimname-invalid-under-claim", "claimname-repoint-under-claim", "claimname-clear-under-claim", "replicas-undefault":
 				cur = u
 			}
 		}
